@@ -9,7 +9,7 @@ use std::mem::size_of;
 use std::ops::Index;
 use std::slice::SliceIndex;
 
-use byteorder::{LittleEndian, ReadBytesExt, WriteBytesExt};
+use byteorder::{LittleEndian, WriteBytesExt};
 
 use super::io::*;
 use super::traits::{GrowablePoint, ShrinkablePoint};
@@ -257,7 +257,7 @@ impl ConcreteReadableShape for Multipoint {
         let mut bbox = GenericBBox::<Point>::default();
         bbox_read_xy_from(&mut bbox, source)?;
 
-        let num_points = source.read_i32::<LittleEndian>()?;
+        let num_points = read_count(source)?;
         if record_size == Self::size_of_record(num_points) as i32 {
             let points = read_xy_in_vec_of::<Point, T>(source, num_points)?;
             Ok(Self { bbox, points })
@@ -333,7 +333,7 @@ impl ConcreteReadableShape for MultipointM {
         let mut bbox = GenericBBox::<PointM>::default();
         bbox_read_xy_from(&mut bbox, source)?;
 
-        let num_points = source.read_i32::<LittleEndian>()?;
+        let num_points = read_count(source)?;
 
         let size_with_m = Self::size_of_record(num_points, true) as i32;
         let size_without_m = Self::size_of_record(num_points, false) as i32;
@@ -427,7 +427,7 @@ impl ConcreteReadableShape for MultipointZ {
     fn read_shape_content<T: Read>(source: &mut T, record_size: i32) -> Result<Self, Error> {
         let mut bbox = GenericBBox::<PointZ>::default();
         bbox_read_xy_from(&mut bbox, source)?;
-        let num_points = source.read_i32::<LittleEndian>()?;
+        let num_points = read_count(source)?;
 
         let size_with_m = Self::size_of_record(num_points, true) as i32;
         let size_without_m = Self::size_of_record(num_points, false) as i32;
